@@ -322,21 +322,65 @@ def tsCheck (o : Oracle) (now : Int) (t : TsCmp) (ev : JTree) : Bool :=
 
 def s (x : String) : Bytes := x.toUTF8.toList
 
-/-- one `checkTypeFn` of the list built by `NewCheckTypeOpNode` -/
+/-- the type names of check_type as byte strings -/
+def tn_obj : Bytes := [111, 98, 106]   -- "obj"
+def tn_object : Bytes := [111, 98, 106, 101, 99, 116]   -- "object"
+def tn_arr : Bytes := [97, 114, 114]   -- "arr"
+def tn_array : Bytes := [97, 114, 114, 97, 121]   -- "array"
+def tn_num : Bytes := [110, 117, 109]   -- "num"
+def tn_number : Bytes := [110, 117, 109, 98, 101, 114]   -- "number"
+def tn_str : Bytes := [115, 116, 114]   -- "str"
+def tn_string : Bytes := [115, 116, 114, 105, 110, 103]   -- "string"
+def tn_null : Bytes := [110, 117, 108, 108]   -- "null"
+def tn_nil : Bytes := [110, 105, 108]   -- "nil"
+
+/-- `checkTypeVal` -/
+inductive TKind | obj | arr | num | str | null | nil
+deriving DecidableEq, Repr
+
+/-- the `switch string(val)` of `NewCheckTypeOpNode`: names and aliases; `none` = the error case -/
+def kindOf? (v : Bytes) : Option TKind :=
+  if v = tn_obj ∨ v = tn_object then some .obj
+  else if v = tn_arr ∨ v = tn_array then some .arr
+  else if v = tn_num ∨ v = tn_number then some .num
+  else if v = tn_str ∨ v = tn_string then some .str
+  else if v = tn_null then some .null
+  else if v = tn_nil then some .nil
+  else none
+
+/-- the closure appended for a type: `n.IsObject()`, `n.IsArray()`, … `n.IsNil()` -/
+def kindFn (k : TKind) (n : Option JTree) : Bool :=
+  match k, n with
+  | .obj, some (.obj _) => true
+  | .arr, some (.arr _) => true
+  | .num, some (.num _) => true
+  | .str, some (.str _) => true
+  | .null, some .null => true
+  | .nil, none => true
+  | _, _ => false
+
+/-- the field has the type named `v` (false for a name that is not a type) -/
 def typeFn (v : Bytes) (n : Option JTree) : Bool :=
-  if v = s "obj" ∨ v = s "object" then (match n with | some (.obj _) => true | _ => false)
-  else if v = s "arr" ∨ v = s "array" then (match n with | some (.arr _) => true | _ => false)
-  else if v = s "num" ∨ v = s "number" then (match n with | some (.num _) => true | _ => false)
-  else if v = s "str" ∨ v = s "string" then (match n with | some (.str _) => true | _ => false)
-  else if v = s "null" then (match n with | some .null => true | _ => false)
-  else if v = s "nil" then (match n with | none => true | _ => false)
-  else false
+  match kindOf? v with
+  | some k => kindFn k n
+  | none => false
 
 def typeNames : List Bytes :=
-  [s "obj", s "object", s "arr", s "array", s "num", s "number", s "str", s "string", s "null", s "nil"]
+  [tn_obj, tn_object, tn_arr, tn_array, tn_num, tn_number, tn_str, tn_string, tn_null, tn_nil]
 
+/-- the constructor's loop: `usedTypesMap` (here `used`) de-duplicates names and aliases, a type
+    already used is skipped (`break`), otherwise it is marked and its closure appended to
+    `checkTypeFns`. (An unknown name makes the constructor fail; `valid` covers that.) -/
+def buildFns : List Bytes → List TKind → List TKind
+  | [], _ => []
+  | v :: vs, used =>
+    match kindOf? v with
+    | some k => if used.contains k then buildFns vs used else k :: buildFns vs (k :: used)
+    | none => buildFns vs used
+
+/-- `checkTypeOpNode.Check`: the first closure of `checkTypeFns` that accepts the node -/
 def typeCheck (c : TypeCheck) (ev : JTree) : Bool :=
-  c.values.any (fun v => typeFn v (dig ev c.path))
+  (buildFns c.values []).any (fun k => kindFn k (dig ev c.path))
 
 /-! ## the tree -/
 
